@@ -91,10 +91,11 @@ def main():
     os.makedirs(work)
     tpath = os.path.join(sc, "trace.ndjson")
     reps = 10 if thorough else 2                  # hooked (recorded + perturbed) repetitions per case
-    max_hooked = 0 if thorough else 1500          # 0 = all
+    max_hooked = 0 if thorough else 700          # 0 = all
     env = vlib.goenv()
     env["GORACE"] = "halt_on_error=1 exitcode=66"
-    args = [binp, "run", cpath, work, str(ck.seed), str(reps), tpath if hooks else "-", str(max_hooked)]
+    max_traced = 1500 if thorough else 300
+    args = [binp, "run", cpath, work, str(ck.seed), str(reps), tpath if hooks else "-", str(max_hooked), str(max_traced)]
     if corrupt:
         args.append("corrupt")
     p = vlib.run(args, check=False, timeout=3000, env=env)
